@@ -26,18 +26,18 @@ G2 = pb.PEL(pb.SRC(ascii=b"BD8D2222", flags=1, callouts=_co()), ph=dict(eid=0x50
 J = pb.PEL(pb.SRC(ascii=b"BD8D3333", flags=1, callouts=_co()), pb.UD(b"\x01\x02\x03\x04\x05", comp=0x4321),
            ph=dict(eid=0x50000003, plid=0x50000001))
 
-MODES = ["l", "a", "n", "plid", "src", "j", "ahex", "lrev"]
+MODES = ["l", "a", "n", "plid", "src", "j", "ahex", "lrev", "bmc"]
 KINDS = ["empty", "rand12", "trunc:60-76", "trunc:200-216", "trunc:296-305", "corrupt:0-4", "corrupt:48-52", "corrupt:72-76",
          "corrupt:83-84", "corrupt:212-214", "corrupt:214-215", "corrupt:215-216", "corrupt:154-156", "corrupt:156-157", "subdir"]
 CASES = ["%s/%s" % (m, k) for m in MODES for k in KINDS] + ["a/corrupt:214-215:v40", "l/corrupt:214-215:v40"]
-QUICK = ["a/corrupt:214-215:v40", "l/corrupt:214-215:v40", "a/trunc:200-216", "n/corrupt:48-52", "j/corrupt:83-84", "plid/rand12",
+QUICK = ["bmc/corrupt:0-4", "a/corrupt:214-215:v40", "l/corrupt:214-215:v40", "a/trunc:200-216", "n/corrupt:48-52", "j/corrupt:83-84", "plid/rand12",
          "src/empty", "ahex/corrupt:0-4", "a/subdir", "l/corrupt:83-84", "lrev/trunc:60-76"]
 HARNESSES = [{"fn": "h_isolate", "cases": CASES, "quick_cases": QUICK, "timeout": {"quick": 120, "thorough": 900}}]
 BOUNDS = {"directory": "two well-formed logs + one extra file whose sorted position (first / middle / last) is symbolic",
           "extra file": "empty; 12 symbolic bytes; truncation of a 305-byte log at a symbolic offset (3 windows); one "
                         "corrupted byte (symbolic offset in a window, symbolic value) in PH id, UH id, SRC header, SRC word "
                         "count, callout header, PCE identity; a sub-directory with files",
-          "modes": "-l, -a, -n, --plid, --src, -j, -a --hex, -l --reverse"}
+          "modes": "-l, -a, -n, --plid, --src, -j, -a --hex, -l --reverse, --bmc-id"}
 ASSUMPTIONS = ["file system, print, argparse replaced by the in-memory world (E1, E2, E4); print / sys of src.py and comp_id.py "
                "are routed to the same recorder", "JSON text replaced by the token (M7); documents are compared through the "
                "remembered objects", "'cannot decode' = the mode, run on the extra file alone, reports nothing"]
@@ -61,6 +61,8 @@ def _opts(mode):
     elif mode == "j":
         o["json"] = True
         o["output_dir"] = "/out"
+    elif mode == "bmc":
+        o["bmcID"] = "419"            # G1's BMC event log id (0x1A3)
     return o
 
 
@@ -99,6 +101,8 @@ def _nothing(w, mode):
         return outs == ['{\n    "Number of PELs found": 0\n}']
     if mode == "j":
         return not any(e[0] == "open_w" for e in w.events)
+    if mode == "bmc":
+        return outs == ["PEL not found"]
     return False
 
 
@@ -123,6 +127,8 @@ def _well_framed(w, mode):
             if i % 2 == 1 and o != ",":
                 return False
         return len(body) % 2 == 1
+    if mode == "bmc":
+        return len(outs) == 1 and (hasattr(outs[0], "obj") or outs[0] == "PEL not found")
     if mode == "ahex":
         begins = [i for i, o in enumerate(outs) if o == "-------------- PEL Begin  ----------------"]
         ends = [i for i, o in enumerate(outs) if o == "-------------- PEL End    ----------------"]
